@@ -52,6 +52,9 @@ type c01Scenario struct {
 	// increment) are the stream WINDOW_UPDATEs the peer then sends, in this order
 	InitWin uint32   `json:"initial_window,omitempty"`
 	Grants  [][2]int `json:"grants,omitempty"`
+	// Seg: how the transport cuts the same octets (harness.SegMode): 1 one octet per delivery, 2 / 3 reads
+	// return at most 1 / 7 octets; the connection preface included
+	Seg int `json:"seg,omitempty"`
 }
 
 var c01Vocab = []struct {
@@ -223,7 +226,12 @@ func c01Run(sc c01Scenario) (*fw.Violation, *harness.Server) {
 	if sc.InitWin > 0 {
 		so.PeerSettings = []peer.Setting{{ID: peer.SInitialWindowSize, Val: sc.InitWin}}
 	}
+	harness.SegMode = sc.Seg
+	defer func() { harness.SegMode = 0 }()
 	h := harness.NewServer(so)
+	if h.HandshakeRefused {
+		return &fw.Violation{Rule: "handshake-refused", Shape: fmt.Sprintf("seg=%d", sc.Seg), Detail: fmt.Sprintf("the server ended the connection right after a conforming client's preface, SETTINGS and SETTINGS ack (transport segmentation mode %d): ServeConn returned %v (%v), log %v", sc.Seg, h.Returned, h.ServeErr, h.Log), Replay: map[string]any{"family": "c01", "scenario": sc}}, h
+	}
 	nextID := uint32(1)
 	preCalls := 0
 	if sc.Prelude == "two-completed" {
@@ -481,11 +489,19 @@ func runC01(c *fw.Ctx) {
 	sampled := 0
 	var doRef func(sc c01Scenario)
 	do := func(sc c01Scenario) {
-		if !sc.Burst && (len(sc.Plans) >= 2 || sc.Family == "encoding") {
+		if !sc.Burst && sc.Seg == 0 && (len(sc.Plans) >= 2 || sc.Family == "encoding") {
 			// the same scenario with everything the peer sends in one segment
 			sb := sc
 			sb.Burst = true
 			defer doRef(sb)
+		}
+		if sc.Seg == 0 && !sc.Burst && sc.InitWin == 0 && (len(sc.Plans) >= 2 || sc.Family == "encoding") {
+			// the same octets, cut differently by the transport
+			for seg := 1; seg <= 3; seg++ {
+				ss := sc
+				ss.Seg = seg
+				defer doRef(ss)
+			}
 		}
 		if item++; !c.Mine(item) {
 			return
